@@ -75,9 +75,12 @@ fn parse_dictionary_object(lexer: &mut Lexer, r: &impl Resolve, ctx: Option<&Con
     let mut dict = Dictionary::default();
     loop {
         // Expect a Name (and Object) or the '>>' delimiter
+        let pos = lexer.get_pos();
         let token = t!(lexer.next());
         if token.starts_with(b"/") {
-            let key = token.reslice(1..).to_name()?;
+            // the key is a name: read it through the name arm of the object parser, which decodes `#xx`
+            lexer.set_pos(pos);
+            let key = t!(parse_with_lexer_ctx(lexer, r, None, ParseFlags::NAME, max_depth)).into_name()?;
             let obj = t!(parse_with_lexer_ctx(lexer, r, ctx, ParseFlags::ANY, max_depth));
             dict.insert(key, obj);
         } else if token.equals(b">>") {
